@@ -64,7 +64,7 @@ def run(source: Observable[_T], scheduler: abc.SchedulerBase | None = None) -> _
     while not done:
         latch.wait()
 
-    if exception:
+    if exception is not None:
         raise cast(Exception, exception)
 
     if not has_result:
